@@ -1,16 +1,21 @@
 (* Corr/C01.v -- correspondence interface for the write path + full read:
    write_arrays on a pre-state, the surviving tree, and read_to_memory of it. *)
 From Geff Require Export Base Dtype Vlen Tree Validate Write Read.
+From Geff Require Export KeyStore KeyTie KeyNames.
 Open Scope list_scope.
 
+(* IWriteK: IWrite plus the RAW KEYS of the store after the write (KeyStore.v; KeyTie.v says what is compared): the surviving tree
+   that the harness dumps through the zarr API must be the hierarchy those keys hold *)
 Inductive input :=
-  IWrite (k : skind) (pre : option znode) (g : wgraph) (md : smeta) (validate overwrite : bool).
+  IWrite (k : skind) (pre : option znode) (g : wgraph) (md : smeta) (validate overwrite : bool)
+| IWriteK (k : skind) (pre : option znode) (g : wgraph) (md : smeta) (validate overwrite : bool)
+          (f : fmt) (raw : kstore) (gv : option string).
 Inductive obs :=
   OWrite (r : res unit) (post : option znode) (back : res mgraph).
 
 Definition model (i : input) : obs :=
   match i with
-  | IWrite k pre g md v o =>
+  | IWrite k pre g md v o | IWriteK k pre g md v o _ _ _ =>
       let (post, r) := run (write_arrays k g md v o) pre in
       OWrite r post (read_to_memory k post true None None)
   end.
@@ -21,10 +26,15 @@ Definition obs_eqb (a b : obs) : bool :=
   | OWrite r1 p1 b1, OWrite r2 p2 b2 =>
       res_eqb unit_eqb r1 r2 && otree_eqb p1 p2 && res_eqb mgraph_eqb b1 b2
   end.
-Definition check (c : input * obs) : bool := obs_eqb (model (fst c)) (snd c).
+Definition key_tie (c : input * obs) : bool :=
+  match c with
+  | (IWriteK _ _ _ _ _ _ f raw gv, OWrite _ post _) => tie f raw gv post
+  | _ => true
+  end.
+Definition check (c : input * obs) : bool := obs_eqb (model (fst c)) (snd c) && key_tie c.
 
 (* which component differs (debugging aid of the harness): result class, surviving tree, read-back *)
 Definition diag (c : input * obs) : list bool :=
   match model (fst c), snd c with
-  | OWrite r1 p1 b1, OWrite r2 p2 b2 => [res_eqb unit_eqb r1 r2; otree_eqb p1 p2; res_eqb mgraph_eqb b1 b2]
+  | OWrite r1 p1 b1, OWrite r2 p2 b2 => [res_eqb unit_eqb r1 r2; otree_eqb p1 p2; res_eqb mgraph_eqb b1 b2; key_tie c]
   end.
